@@ -1031,3 +1031,24 @@ Proof.
   rewrite (gslb_chain_last rest (sort_by_name a) b (sorted_keys_nodup a Ha) Hall' Hb).
   destruct Hb as [_ Hpb]. destruct (pos_total b =? 0) eqn:E'; [apply Z.eqb_eq in E'; contradiction | reflexivity].
 Qed.
+
+(* ------------------------------------------------------------------ C13: a JSON null at any pointer position of host_rule.data is rejected *)
+Lemma host_null_rejected f :
+  hf_version f = None \/ hf_hosts f = None \/ hf_tags f = None
+  \/ (exists t, In (t, None) (olist (hf_hosts f))) \/ (exists p, In (p, None) (olist (hf_tags f))) ->
+  host_conf_load f = None.
+Proof.
+  intro H. unfold host_conf_load.
+  assert (Hc : host_conf_check f = false); [|rewrite Hc; reflexivity].
+  unfold host_conf_check.
+  destruct (hf_version f); [|reflexivity]. destruct (hf_hosts f) as [hosts|]; [|reflexivity].
+  destruct (hf_tags f) as [tags|]; [|reflexivity]. simpl in H.
+  destruct H as [H | [H | [H | [[t H] | [p H]]]]]; try discriminate.
+  - assert (Hf : forallb (fun e : str * option (list str) =>
+                           match snd e with None => false | Some _ => existsb (fun pe : str * option (list str) => mem_str (fst e) (olist (snd pe))) tags end) hosts = false).
+    { destruct (forallb _ hosts) eqn:E; [|reflexivity]. rewrite forallb_forall in E. specialize (E _ H). discriminate. }
+    rewrite Hf. rewrite andb_false_r. reflexivity.
+  - assert (Hf : all_present tags = false).
+    { unfold all_present. destruct (forallb _ tags) eqn:E; [|reflexivity]. rewrite forallb_forall in E. specialize (E _ H). discriminate. }
+    rewrite Hf. reflexivity.
+Qed.
